@@ -628,6 +628,48 @@ def paren_transparent(F, rep):
                     "classified differently (`f :: (fn n do .. f(n - 1) .. end)` cannot see itself; a parenthesised blob field function "
                     "gets no `self`)" % pp(m)[:70].replace("\n", " ")), line_of(m))
     rep.floor("PARENS", "shape tests on unresolved expressions", n, 2)
+    # the parser itself: where it demands a particular form of a sub-expression it has just parsed (`t[<int literal>]`), the test
+    # is made on the expression without its parentheses
+    PARSER_EXEMPT = {
+        "arrow_call::prepend_expresion": "the right-hand side of `->` is a call *form* that the arrow rewrites: `a -> (f(b))` groups "
+                                         "f(b) as a value first, the parentheses there are not redundant",
+        "[Expression as PrettyPrint]::pretty_print": "the printer's own dispatch over every kind",
+    }
+    m_ = 0
+    for fn in F.fns_in("sylt_parser::"):
+        fname = last(fn["_path"], 2)
+        tests = []
+        for x in nodes(fn_body(fn)):
+            if x.get("k") == "LetCond" and any((pat_variant(q) or "").startswith(EKP + "::") for q in _all_pats(x["pat"])):
+                tests.append((x, [pat_variant(q) for q in _all_pats(x["pat"]) if (pat_variant(q) or "").startswith(EKP + "::")]))
+            elif x.get("k") == "Match" and ty_is((x.get("scrut_ty") or "").lstrip("&"), EKP):
+                tests.append((x, [pat_variant(q) for a in x["arms"] for alt in pat_alternatives(a["pat"]) for q in _all_pats(alt)
+                                  if (pat_variant(q) or "").startswith(EKP + "::")]))
+        k = 0
+        for x, variants in tests:
+            if all(v.endswith("::Parenthesis") for v in variants):
+                continue  # the stripping itself
+            m_ += 1
+            k += 1
+            if fname in PARSER_EXEMPT:
+                rep.ob("PARENS", "parser|%s|form-test#%d" % (fname, k), True, "exempt: " + PARSER_EXEMPT[fname], line_of(x))
+                continue
+            # the tested expression had its parentheses taken off: a loop over the Parenthesis pattern assigns the tested local
+            tested = {y["hid"] for y in nodes(x.get("scrut") or x.get("init") or {}, "Path") if y.get("res") == "Local"}
+            stripped = False
+            for lp in nodes(fn_body(fn)):
+                if lp.get("k") in ("While", "Loop") and any((pat_variant(alt) or "").endswith("ExpressionKind::Parenthesis")
+                                                            for y in nodes(lp) if y.get("k") in ("Match", "LetCond", "While")
+                                                            for alt in _pats_of(y)):
+                    assigned = {peel(a_["l"]).get("hid") for a_ in nodes(lp, "Assign")}
+                    if assigned & tested:
+                        stripped = True
+            rep.ob("PARENS", "parser|%s|form-test#%d" % (fname, k), stripped,
+                   "the form the parser demands (%s) is tested on the expression without its parentheses" % ", ".join(sorted({last(v) for v in variants})) if stripped else
+                   "%s demands a form of the expression it has just parsed (%s) and looks at the outermost node only: the same expression in "
+                   "redundant parentheses is a syntax error (`t[(0)]` while `t[0]` compiles)" % (fname, ", ".join(sorted({last(v) for v in variants}))),
+                   line_of(x))
+    rep.floor("PARENS", "form tests of the parser on parsed sub-expressions", m_, 2)
 
 
 def _pats_of(x):
